@@ -2339,7 +2339,9 @@ class Slur(TimedObject):
         self.start_note = start_note
         self.end_note = end_note
         # maintain a list of attributes to update when cloning this instance
-        self._ref_attrs.extend(["start_note", "end_note"])
+        # (the private names: replacing a reference must not run the
+        # registration side effects of the property setters)
+        self._ref_attrs.extend(["_start_note", "_end_note"])
 
     @property
     def start_note(self):
@@ -2416,7 +2418,7 @@ class Tuplet(TimedObject):
         self.actual_type = actual_type
         self.normal_type = normal_type
         # maintain a list of attributes to update when cloning this instance
-        self._ref_attrs.extend(["start_note", "end_note"])
+        self._ref_attrs.extend(["_start_note", "_end_note"])
 
     @property
     def start_note(self):
